@@ -52,6 +52,7 @@ func init() {
 			{"vm-bytes-retained", "a system call or native method that keeps bytes taken from a VM item beyond the call (iterator, struct, map) clones them first: a Buffer stays writable by the contract", func(c *Ctx) { ruleVMBytesRetained(c, "pkg/core/interop/storage", "pkg/core/interop/runtime", "pkg/core/interop/contract", "pkg/core/interop/iterator", "pkg/core/interop/crypto", "pkg/core/native", "pkg/core/interop") }},
 			{"publish-atomic", "all private layers given to one PersistPrivate call (the block and its state changes) are merged inside one critical section of the store: the lock is taken before the loop over the layers and released after it", rulePublishAtomic},
 			{"oracle-requests-reconciled", "the one map of execution state kept outside the DAO layers (Oracle.newRequests) is checked against contract storage before it is handed to the oracle service: requests of faulted or rolled-back executions are dropped", ruleOracleRequestsReconciled},
+			{"notification-immutable", "a recorded notification is an immutable deep copy (made by AddNotification or by every caller): System.Runtime.GetNotifications hands the recorded object out, and a rolled-back callee must not be able to rewrite an event emitted before it ran", ruleNotificationImmutable},
 			{"tx-commit-guard", "the per-transaction DAO layer is persisted only on the non-fault branch, it is the private layer of a context created for that transaction, and OnPersist/PostPersist persist only after a successful Exec", ruleTxCommitGuard},
 			{"unload-rollback", "the unload callback of a wrapped call persists only on commit, cuts notifications back and restores the base DAO layer on every exit; baselines are captured before the callee is loaded; the VM passes commit = no uncaught exception; ContractHasTryBlock scans every handler of every frame", ruleUnloadRollback},
 			{"exec-confinement", "in the execution closure no store targets a package-level variable or a native contract object: everything an execution writes lives in a layer that is dropped on FAULT / caught exception", ruleExecConfinement},
